@@ -273,7 +273,7 @@ func explore(p *program, spec *harnessSpec, nworkers int, seed int64) *exploreRe
 	var wg sync.WaitGroup
 	workers := make([]*worker, nworkers)
 	for i := 0; i < nworkers; i++ {
-		s, err := newSolver(solverZ3, 20000)
+		s, err := newSolver(mainSolverKind(), 30000)
 		if err != nil {
 			panic(err)
 		}
@@ -391,7 +391,7 @@ func exploreFixed(p *program, spec *harnessSpec, v *violationRec) *pathResult {
 			cfg.schedKinds[k] = true
 		}
 	}
-	s, err := newSolver(solverZ3, 20000)
+	s, err := newSolver(mainSolverKind(), 30000)
 	if err != nil {
 		return nil
 	}
